@@ -211,6 +211,13 @@ def StageReference(dataReference,  # type: experiment.model.graph.DataReference
                 dest = os.path.join(dest, destName)
                 shutil.copytree(reference, dest, symlinks=True)
             else:
+                #shutil.copy opens <dest>/<name> for writing, which FOLLOWS a symbolic link that already has that
+                #name (e.g. a link reference with the same last component staged earlier): the file the link leads
+                #to, outside the working directory, would be overwritten - or created if the link is dangling.
+                #Like os.symlink and shutil.copytree, which fail when the name exists, nothing is copied on top of a link
+                destFile = os.path.join(dest, os.path.split(reference)[1])
+                if os.path.isdir(dest) and os.path.islink(destFile):
+                    raise OSError(errno.EEXIST, 'Will not copy on top of a symbolic link', destFile)
                 shutil.copy(reference, dest)
         elif dataReference.method == experiment.model.graph.DataReference.Link:
             name = os.path.split(reference)[1]
